@@ -170,7 +170,7 @@ def bnOp (inp : Json) : Except String Json := do
 
 /-- bytes of the candidate that `rng.fill_bytes` would have had to produce: the last
 `range/8 + 1` bytes of the `size/8 + 1`-byte big-endian encoding -/
-def candFixed (m : OvfMode) (size range : Nat) (v : Int) : Bool :=
+def candFixed (size range : Nat) (v : Int) : Bool :=
   let sizeBytes := size / 8 + 1
   let rangeBytes := range / 8 + 1
   let ds := toDigits 256 v.natAbs
@@ -178,7 +178,7 @@ def candFixed (m : OvfMode) (size range : Nat) (v : Int) : Bool :=
   else
     let full := List.replicate (sizeBytes - ds.length) 0 ++ ds
     let rnd := full.drop (sizeBytes - rangeBytes)
-    match primeCandidate m size range rnd with
+    match primeCandidate size range rnd with
     | .ok c => c == v
     | _ => false
 
@@ -199,12 +199,11 @@ def bnRandom (inp : Json) : Except String Json := do
     | some c => do
       let size ← getNat c "size"
       let range ← getNat c "range"
-      let mode ← getMode c
       let vs ← getArr c "values"
       vs.toList.mapM fun j => do
         let s ← j.getStr?
         match parseDecInt s with
-        | some v => pure (Json.bool (candFixed mode size range v))
+        | some v => pure (Json.bool (candFixed size range v))
         | none => throw s!"bad integer {s}"
     | none => pure []
   pure (Json.mkObj [("mr", Json.arr mrOut.toArray), ("cand", Json.arr candOut.toArray)])
@@ -212,9 +211,8 @@ def bnRandom (inp : Json) : Except String Json := do
 def primeCandOp (inp : Json) : Except String Json := do
   let size ← getNat inp "size"
   let range ← getNat inp "range"
-  let mode ← getMode inp
   let rnd ← hexToBytes (← getStr inp "rnd")
-  pure (Json.mkObj (outJson ((primeCandidate mode size range rnd).map .z)))
+  pure (Json.mkObj (outJson ((primeCandidate size range rnd).map .z)))
 
 def dispatchBn (op : String) (inp : Json) : Option (Except String Json) :=
   match op with
